@@ -162,19 +162,19 @@ pub struct LogGoal<S> {
     pub pred: Pred<S>,
     pub sampler: GoalSampler<S>,
 }
-impl<S: State + Key> Goal<S> for LogGoal<S> {
+impl<S: State + Key + Clone> Goal<S> for LogGoal<S> {
     fn is_satisfied(&self, s: &S) -> bool {
         let ans = (self.pred)(s);
         log::log_goal(self.id, log::intern(s), ans);
         ans
     }
 }
-impl<S: State + Key> GoalRegion<S> for LogGoal<S> {
+impl<S: State + Key + Clone> GoalRegion<S> for LogGoal<S> {
     fn distance_goal(&self, _s: &S) -> f64 {
         0.0
     }
 }
-impl<S: State + Key> GoalSampleableRegion<S> for LogGoal<S> {
+impl<S: State + Key + Clone> GoalSampleableRegion<S> for LogGoal<S> {
     fn sample_goal(&self, rng: &mut impl Rng) -> Result<S, StateSamplingError> {
         let mut dynr = DynRng(rng);
         let mut c = CountingRng {
